@@ -47,6 +47,8 @@ type objUse struct {
 }
 
 func runC14(c *Ctx) {
+	// what the cache hands out is shared by every caller: read-only (shared with C18)
+	checkCachedValueUntouched(c, "R14.5")
 	R := c.R
 	// shared with C11 (R11.3): concurrent runs execute the same code – a package-level variable that the run path writes, or
 	// hands out by reference (a buffer, a pool, a cache), is accessed by several runs' goroutines with no synchronisation of its own
